@@ -3,8 +3,9 @@
 (*                                                                                                           *)
 (* IMPLEMENTATION side  = a transcription of reader/model/prometheus.go `seriesIt` (state: idx, starts -1): *)
 (*      Next : idx++ ; return idx < len                                                                      *)
-(*      Seek : if t <= samples[0].ts {idx = 0; return true}; binary search l,u,idx as written;               *)
-(*             s.idx = idx (the LAST PROBED index, not l); return idx < len                                  *)
+(*      Seek : if idx < 0 {idx = 0}; if idx >= len {return false};                                           *)
+(*             idx += sort.Search over samples[idx:] for ts >= t (lower bound, forward only);                *)
+(*             return idx < len                                                                              *)
 (*      At   : samples[idx]                                                                                  *)
 (*   An out-of-range index is a Go panic; the transcription returns "panic".                                 *)
 (* CONTRACT side = chunkenc.Iterator (tsdb/chunkenc/chunk.go of the vendored Prometheus):                    *)
@@ -72,20 +73,19 @@ Obs(a, i) == IF i < Len(a) THEN (IF InRange(a, i) THEN R("true", a[i + 1]) ELSE 
 
 ImplNext(a, i) == [idx |-> i + 1, ret |-> Obs(a, i + 1)]
 
-RECURSIVE BSearch(_, _, _, _, _)
-\* for u > l { idx = (u+l)/2; if s[idx]==t {l = idx; break}; if s[idx] < t {l = idx+1; continue}; u = idx }
-BSearch(a, t, l, u, i) ==
-    IF u > l THEN
-        LET m == (u + l) \div 2 IN
-        IF a[m + 1] = t THEN m
-        ELSE IF a[m + 1] < t THEN BSearch(a, t, m + 1, u, m)
-        ELSE BSearch(a, t, l, m, m)
+RECURSIVE SortSearch(_, _, _, _, _)
+\* sort.Search(n, f) over rest = a[from:], f(i) = rest[i].ts >= t:  i, j := 0, n; for i < j { h := (i+j)/2; if !f(h) {i = h+1} else {j = h} }; return i
+SortSearch(a, from, t, i, j) ==
+    IF i < j THEN
+        LET h == (i + j) \div 2 IN
+        IF a[from + h + 1] >= t THEN SortSearch(a, from, t, i, h)
+        ELSE SortSearch(a, from, t, h + 1, j)
     ELSE i
 
 ImplSeek(a, i, t) ==
-    IF Len(a) = 0 THEN [idx |-> i, ret |-> R("panic", 0)]             \* s.samples[0] on an empty slice
-    ELSE IF t <= a[1] THEN [idx |-> 0, ret |-> Obs(a, 0)]
-    ELSE LET j == BSearch(a, t, 0, Len(a), 0) IN [idx |-> j, ret |-> Obs(a, j)]
+    LET i0 == IF i < 0 THEN 0 ELSE i IN                                \* if s.idx < 0 { s.idx = 0 }
+    IF i0 >= Len(a) THEN [idx |-> i0, ret |-> R("false", 0)]            \* if s.idx >= len(s.samples) { return false }
+    ELSE LET j == i0 + SortSearch(a, i0, t, 0, Len(a) - i0) IN [idx |-> j, ret |-> Obs(a, j)]
 
 ImplAt(a, i) == IF InRange(a, i) THEN [idx |-> i, ret |-> R("at", a[i + 1])] ELSE [idx |-> i, ret |-> R("panic", 0)]
 
